@@ -360,6 +360,8 @@ class WalkModel(Model):
         self.fields["c_hyperv.HyperVStorageKeyTable"] = ObjV("c_hyperv.HyperVStorageKeyTable")
         self.lens["c_hyperv.HyperVStorageKeyTable"] = IntV(z3.IntVal(len(c.c_hyperv.HyperVStorageKeyTable)))
         self.fields["c_hyperv.SIGNATURE_KEY_TABLE_HEADER"] = IntV(z3.IntVal(int(c.c_hyperv.SIGNATURE_KEY_TABLE_HEADER)))
+        self.fields["c_hyperv.HyperVStorageKeyTableEntryHeader"] = ObjV("c_hyperv.HyperVStorageKeyTableEntryHeader")
+        self.lens["c_hyperv.HyperVStorageKeyTableEntryHeader"] = IntV(z3.IntVal(len(c.c_hyperv.HyperVStorageKeyTableEntryHeader)))
         self.global_calls["HyperVStorageKeyTableEntry"] = self.new_entry
         self.globals["InvalidSignature"] = ObjV("InvalidSignature")
         self.setitems = {"self._lookup": self.lookup_set}
@@ -424,7 +426,7 @@ def walk_contract():
     def post(eng, st, rv):
         m = eng.model
         eo = st.env["entry_offset"].e
-        return [("walk_ends_at_a_zero_size_entry_or_the_table_end", z3.Or(eo >= m.size, m.ESIZE(eo) == 0)), ("every_entry_is_in_lookup", st.ghost["n_entries"] == st.ghost["n_lookup"])]
+        return [("walk_ends_at_a_zero_size_entry_or_when_no_entry_header_fits", z3.Or(eo + HDR > m.size, m.ESIZE(eo) == 0)), ("every_entry_is_in_lookup", st.ghost["n_entries"] == st.ghost["n_lookup"])]
 
     loops = {("While", 0): LoopSpec(inv=inv, variant=lambda eng, st: eng.model.size - st.env["entry_offset"].e + 1, shapes={"entry": "local", "entry_offset": "int"},
                                     ghost_havoc={"next_expected": "int", "n_entries": "int", "n_lookup": "int"})}
